@@ -440,10 +440,28 @@ def vector(ctx):
     if rng.random() < 0.3:
         kw["colorbar"] = False
     info["mode"] = mode
+    plot = None
+    if rng.random() < 0.25:
+        # history: one plotting accessor (p = field.mpl) is kept while the field's
+        # component-to-axis mapping is changed: it was used once with the two in-plane axes
+        # exchanged, then the mapping under test is assigned and the same accessor plots again
+        final = dict(f.vdim_mapping)
+        swapped = dict(final)
+        swapped[labels[ix]], swapped[labels[iy]] = final[labels[iy]], final[labels[ix]]
+        acc = f.mpl
+        try:
+            f.vdim_mapping = swapped
+            _, ax0 = plt.subplots()
+            acc.vector(ax=ax0, use_color=False, colorbar=False)
+            f.vdim_mapping = final
+            plot = acc.vector
+            info["accessor_kept_across_mapping_change"] = True
+        except Exception:  # noqa: BLE001 - the earlier plot is not under test
+            f.vdim_mapping = final
     guard = Unchanged(ctx, f, aux, info)
     fig, ax = used_axes(rng)
     CALLS.clear()
-    f.mpl.vector(ax=ax, **kw)
+    (plot or f.mpl.vector)(ax=ax, **kw)
     guard.verify()
     m = mult_and_labels(ctx, case, ax, info)
     cs = calls_on(ax, "quiver")
